@@ -163,10 +163,16 @@ func (s *c40Store) UpdateTopicConfig(ctx context.Context, cfg *metadatapb.TopicC
 }
 func (s *c40Store) CreatePartitions(ctx context.Context, topic string, partitionCount int32) error {
 	s.note("CreatePartitions", topic, partitionCount)
+	if partitionCount > 1024 { // the call is already recorded as a violation; do not let a hostile count take the process down
+		return metadata.ErrInvalidTopic
+	}
 	return s.inner.CreatePartitions(ctx, topic, partitionCount)
 }
 func (s *c40Store) CreateTopic(ctx context.Context, spec metadata.TopicSpec) (*protocol.MetadataTopic, error) {
 	s.note("CreateTopic", spec.Name, spec.NumPartitions, spec.ReplicationFactor)
+	if spec.NumPartitions > 1024 {
+		return nil, metadata.ErrInvalidTopic
+	}
 	return s.inner.CreateTopic(ctx, spec)
 }
 func (s *c40Store) DeleteTopic(ctx context.Context, name string) error {
@@ -412,6 +418,11 @@ func c40Diff(a, b map[string]string) []string {
 		}
 	}
 	sort.Strings(out)
+	for i, d := range out { // hostile names are long; keep messages readable
+		if len(d) > 100 {
+			out[i] = d[:100] + "…"
+		}
+	}
 	return out
 }
 
@@ -555,6 +566,8 @@ func TestVerifC40Tools(t *testing.T) {
 			r.Count("calls", 1)
 			r.Count("outcome_"+outcome, 1)
 			r.Count("argkind_"+strings.SplitN(kind, "+", 2)[0], 1)
+			r.Seen("tool_kind_outcome", name+"/"+strings.SplitN(kind, "+", 2)[0]+"/"+outcome)
+
 			r.Count("store_reads", int64(reads))
 			if toolsSeen[name] && reads > 0 {
 				r.Seen("tools_reaching_store", name)
